@@ -145,6 +145,27 @@ def run(tier, seed):
                     ds = mod.wrap_dataset(cls(make_td(n)))
                     recs.append(record_pass(mod._dataloader_single(ds, b, shuffle), orig, n, b, shuffle, True,
                                             cname + " via REINFORCE.wrap_dataset/_dataloader_single, eval batch %d" % mod.val_batch_size))
+    # explicit index orders (a custom / shuffling batch sampler): the batch must hold exactly the requested items in the
+    # requested order -- including orders that LOOK like a contiguous range (first and last index span the batch) and repeats
+    n = 7
+    orig = make_td(n)
+    orders = [[0, 2, 1, 3], [3, 1, 2, 0], [1, 3, 2, 4], [4, 6, 5], [6, 5, 4], [2, 2, 3], [5, 0], [0, 1, 2, 3, 4, 5, 6], [3]]
+    for cname, cls in classes().items():
+        for has_extra in (False, True):
+            ds = cls(make_td(n))
+            if has_extra:
+                ds = ds.add_key("extra", torch.tensor([float(F(t)) for t in range(1, n + 1)]))
+            got = [b for b in DataLoader(ds, batch_sampler=orders, collate_fn=ds.collate_fn)]
+            for idxs, batch in zip(orders, got):
+                tags = [int(t) for t in batch["tag"].tolist()]
+                ok = tags == [i + 1 for i in idxs] and all(item_ok(batch, j, orig, t) for j, t in enumerate(tags)) and \
+                    (not has_extra or [int(round(float(x))) for x in batch["extra"].tolist()] == [F(t) for t in tags])
+                if not ok:
+                    viol.append({"property": "C17", "env": cname + (".add_key" if has_extra else ""), "monitor": "requested-items-in-requested-order",
+                                 "inst": {"n": n, "indices": idxs}, "actions": [],
+                                 "detail": "batch sampler asked for items %s (tags %s), batch holds tags %s%s"
+                                           % (idxs, [i + 1 for i in idxs], tags,
+                                              " extra %s" % batch["extra"].tolist() if has_extra else "")})
     fails, _, st, _ = validate_records("LoaderTrace", recs, ["M_Size", "M_Order", "M_Same", "M_Extra", "M_Perm", "End"], "c17")
     for f in fails:
         rec = recs[f[0]]
